@@ -87,6 +87,8 @@ class AlgorithmWithAnnealingMixin:
             return
 
         self.temperature = self.algo_parameters["annealing"]["initial_temperature"]
+        if not self.temperature >= 1:
+            raise LeaspyAlgoInputError("Your `initial_temperature` should be >= 1")
         self.temperature_inv = 1 / self.temperature
 
         if not (
@@ -107,6 +109,11 @@ class AlgorithmWithAnnealingMixin:
         self._annealing_period = self.algo_parameters["annealing"]["n_iter"] // (
             self.algo_parameters["annealing"]["n_plateau"] - 1
         )
+        if self._annealing_period < 1:
+            raise LeaspyAlgoInputError(
+                "Your `annealing.n_iter` should be at least `annealing.n_plateau` - 1 "
+                "(at least one iteration per temperature plateau)"
+            )
 
         self._annealing_temperature_decrement = (
             self.algo_parameters["annealing"]["initial_temperature"] - 1.0
@@ -138,5 +145,11 @@ class AlgorithmWithAnnealingMixin:
                     # Decrease temperature linearly
                     self.temperature -= self._annealing_temperature_decrement
                     self.temperature = max(self.temperature, 1)
+                    if (
+                        self.current_iteration // self._annealing_period
+                        >= self.algo_parameters["annealing"]["n_plateau"] - 1
+                    ):
+                        # last plateau: exactly 1 (the repeated subtraction may be off by rounding)
+                        self.temperature = 1.0
 
                 self.temperature_inv = 1.0 / self.temperature
